@@ -71,6 +71,9 @@ class PES(MPEGPacket):
             self.pesdata = self.payload[(9 + _hdrlen) :]
         else:
             logger.debug("No optional PES header")
+            self.extension_w1 = None
+            self.extension_w2 = None
+            self.header_data = None
             self.pesdata = self.payload[6:]
 
     def pack(self) -> bytes:
